@@ -68,7 +68,7 @@ macro_rules! int_div_trunc {
         }
     };
 }
-//@ name=c14_k8_int1_trunc_all prop=C14,C11,C15 tier=quick profile=k8 funcs="Int::checked_div_rem,Int::checked_div,Int::rem,Int::checked_div_rem_vartime,Int::checked_div_vartime,Int::rem_vartime,CheckedDiv,Div/Rem operators,Wrapping<Int> / %,DivVartime" bound="u8 words, Int<1>: every n, every d (zero included)" free_bits=16
+//@ name=c14_k8_int1_trunc_all prop=C14,C11,C15 tier=quick profile=k8 funcs="Int::checked_div_rem,Int::checked_div,Int::rem,Int::checked_div_rem_vartime,Int::checked_div_vartime,Int::rem_vartime,CheckedDiv,Div/Rem operators,Wrapping<Int> / %,DivVartime" bound="u8 words, Int<1>: every n, every d (zero included)" free_bits=16 core=C15,C11
 int_div_trunc!(c14_k8_int1_trunc_all, 1, Int::from_bits(any_uint()), Int::from_bits(any_uint()));
 //@ name=c14_k8_int2_trunc_shaped prop=C14,C11,C15 tier=quick profile=k8 funcs="Int::checked_div_rem,Int::checked_div,Int::rem,Int::checked_div_rem_vartime,Int::checked_div_vartime,Int::rem_vartime" bound="u8 words, Int<2>: n=[S(3),S(3)^sign], d=[S(2),S(2)^sign] (zero, MIN, MAX, -1 included)" free_bits=16
 int_div_trunc!(c14_k8_int2_trunc_shaped, 2, Int::from_bits(Uint::new([Limb(shaped_word(3)), Limb(shaped_signed_top(3))])), Int::from_bits(Uint::new([Limb(shaped_word(2)), Limb(shaped_signed_top(2))])));
@@ -155,7 +155,7 @@ macro_rules! int_div_uint {
         }
     };
 }
-//@ name=c14_k8_int1_by_uint_all prop=C14,C11,C15 tier=quick profile=k8 funcs="Int::div_rem_uint,Int::div_uint,Int::rem_uint,Int::div_rem_uint_vartime,Int::div_rem_floor_uint,Int::div_floor_uint,Int::normalized_rem,Int::div_rem_floor_uint_vartime,Int::div_floor_uint_vartime,Int::normalized_rem_vartime,Div/Rem<NonZero<Uint>> for Int" bound="u8 words, Int<1> by Uint<1>: every n, every d != 0" free_bits=16
+//@ name=c14_k8_int1_by_uint_all prop=C14,C11,C15 tier=quick profile=k8 funcs="Int::div_rem_uint,Int::div_uint,Int::rem_uint,Int::div_rem_uint_vartime,Int::div_rem_floor_uint,Int::div_floor_uint,Int::normalized_rem,Int::div_rem_floor_uint_vartime,Int::div_floor_uint_vartime,Int::normalized_rem_vartime,Div/Rem<NonZero<Uint>> for Int" bound="u8 words, Int<1> by Uint<1>: every n, every d != 0" free_bits=16 core=C15
 int_div_uint!(c14_k8_int1_by_uint_all, 1, Int::from_bits(any_uint()), any_uint());
 //@ name=c14_k8_int2_by_uint_shaped prop=C14,C11,C15 tier=quick profile=k8 funcs="Int::div_rem_uint,Int::div_rem_uint_vartime,Int::div_rem_floor_uint,Int::div_floor_uint,Int::normalized_rem,Int::div_rem_floor_uint_vartime" bound="u8 words, Int<2> by Uint<2>: n=[S(3),S(3)^sign], d=[S(3),S(1)] != 0" free_bits=15
 int_div_uint!(c14_k8_int2_by_uint_shaped, 2, Int::from_bits(Uint::new([Limb(shaped_word(3)), Limb(shaped_signed_top(3))])), Uint::new([Limb(shaped_word(3)), Limb(shaped_word(1))]));
